@@ -745,3 +745,34 @@ m(
     "offset handed to the next year is one row too low (next year's opening balance reads the wrong cells)",
     ("plugin/report/jp/tax_report_jp.py", "        return row_index + 9\n", "        return row_index + 8\n"),
 )
+
+# ---------------------------------------------------------------- C17
+m(
+    "c17_assets_not_sorted",
+    ["C17"],
+    "assets processed in set-iteration order (depends on the hash seed) instead of sorted",
+    ("rp2_main.py", "            assets = list(configuration.assets)\n        assets.sort()\n", "            assets = list(configuration.assets)\n"),
+)
+m(
+    "c17_hifo_tiebreak_on_object_id",
+    ["C17"],
+    "HIFO breaks price+time ties on id(lot) instead of the row",
+    ("plugin/accounting_method/hifo.py", "AcquiredLotSortKey(-lot.spot_price, lot.timestamp.timestamp(), lot.row)", "AcquiredLotSortKey(-lot.spot_price, ZERO_TS, id(lot))"),
+    ("plugin/accounting_method/hifo.py", "from rp2.in_transaction import InTransaction\n", "from rp2.in_transaction import InTransaction\n\nZERO_TS = 0.0\n"),
+)
+m(
+    "c17_stale_report_kept_as_backup",
+    ["C17"],
+    "an existing report is not removed first: ezodf then leaves a .bak next to it and the content of a re-run directory differs",
+    ("plugin/report/abstract_ods_generator.py", "            output_file_path.unlink()\n", "            pass\n"),
+)
+m(
+    "c17_legend_shows_generation_time",
+    ["C17"],
+    "legend sheet stamped with the wall-clock time of the run",
+    (
+        "plugin/report/abstract_ods_generator.py",
+        "                cls._fill_cell(legend_sheet, index + 2, 1, to_date if to_date != MAX_DATE else \"non-specified\", visual_style=\"transparent\")\n",
+        "                import datetime as _dt\n\n                cls._fill_cell(legend_sheet, index + 2, 1, to_date if to_date != MAX_DATE else f\"non-specified (generated {_dt.datetime.now().isoformat()})\", visual_style=\"transparent\")\n",
+    ),
+)
